@@ -16,6 +16,8 @@ Definition op_regs_ok (e : senv) (o : op) : bool :=
   | OCreate cs | OCreateDropped cs | OEBuild _ cs => comps_ok e cs
   | OStore (SRegister sid) => valid_sid sid
   | OStore so => registered e (sop_sid so) && valid_sid (sop_sid so)
+  | OQuiet (SRegister sid) => valid_sid sid
+  | OQuiet so => registered e (sop_sid so) && valid_sid (sop_sid so)
   | _ => true
   end.
 
@@ -85,7 +87,7 @@ Proof.
     apply (s_insert_comps_ok w1 e k H1).
     - rewrite L, En. apply life_alive_on_return.
     - rewrite E. assumption. }
-  destruct o as [k|k|n| |n|built k|k|h|hs|h| | |h|h| |h| |so| | ]; cbn [sstep_core op_regs_ok] in *.
+  destruct o as [k|k|n| |n|built k|k|h|hs|h| | |h|h| |h| |so| |lsid lh lv|lsid ll|lsid lh|prog|qso| ]; cbn [sstep_core op_regs_ok] in *.
   - specialize (Hcr false (hd_choice cs) k Hr). destruct (s_create false w (hd_choice cs)) as [w1 e]. exact Hcr.
   - specialize (Hcr false (hd_choice cs) k Hr). destruct (s_create false w (hd_choice cs)) as [w1 e]. cbn [fst].
     apply (SInvE_env (s_insert_comps w1 e k)); [apply s_builder_drop_envE | assumption].
@@ -132,6 +134,26 @@ Proof.
     + unfold env_drop_world. split; cbn [se_stores se_table]; [intros sid ms Hf; discriminate | intros sid []].
     + cbn [s_with_env s_env]. unfold env_drop_world. cbn [se_cx]. rewrite env_drop_all_stuck; [assumption|].
       intros sid ms Hin. apply in_elements_find in Hin. apply (EI_stores _ HE sid ms Hin).
+  - destruct (hget (s_hs w) lh); assumption.
+  - destruct (hget_all (s_hs w) (map fst ll)); assumption.
+  - destruct (hget (s_hs w) lh); assumption.
+  - assumption.
+  - destruct H as [HE Hs].
+    assert (EInv (fst (env_sop (s_env w) (l_view (s_life w)) (s_hs w) qso)) /\
+            cx_stuck (se_cx (fst (env_sop (s_env w) (l_view (s_life w)) (s_hs w) qso))) = cx_stuck (se_cx (s_env w))) as X.
+    { destruct qso; try (apply andb_true_iff in Hr; destruct Hr as [R1 R2];
+        destruct (sop_ok (s_env w) (l_view (s_life w)) (s_hs w) _ HE (proj1 (registered_true _ _) R1)) as [A [B _]];
+        [unfold valid_sid in R2; cbn [sop_sid] in *; destruct (kind_of _); [discriminate|discriminate] | split; assumption]).
+      cbn [env_sop fst]. unfold valid_sid in Hr. destruct (register_ok (s_env w) sid HE) as [A [B _]].
+      - destruct (kind_of sid); [discriminate|discriminate].
+      - rewrite B. auto. }
+    unfold env_sop_quiet. destruct (env_sop (s_env w) (l_view (s_life w)) (s_hs w) qso) as [e' out]. cbn [fst] in *.
+    destruct X as [X1 X2].
+    assert (forall t, EInv (env_cx e' (cx_drop (se_cx e') t)) /\ cx_stuck (se_cx (env_cx e' (cx_drop (se_cx e') t))) = false) as Hd.
+    { intros t. split; [apply EInv_cx; assumption | cbn; congruence]. }
+    split; cbn [s_with_env s_env]; destruct out as [| | | | | | | |r|o| | | | | | | ]; try assumption; try congruence;
+      try (destruct r; try assumption; try congruence; apply Hd);
+      try (destruct o; try assumption; try congruence; apply Hd).
   - assumption.
 Qed.
 
